@@ -12,7 +12,7 @@ open Lean GitAi GitAi.Driver GitAi.Sys GitAi.Driver.SysD
 structure World where
   branches : List (String × State)
   cur : String
-  stash : List (List (Nat × Nat)) := []
+  stash : List (List Nat × List (Nat × Nat)) := []
   out : List Json := []
 
 def World.get (w : World) (b : String) : State :=
